@@ -351,6 +351,12 @@ func batch(res *evid.Result, bi int, root string) {
 						same = true
 					}
 				}
+				// ... and the file under test once more under the same name (a re-index after an
+				// update of the corpus): every function now has TWO signatures of its own
+				if err := quietIndex(basePath, "IDX", db); err != nil {
+					res.Violate("cli/index-failed", fmt.Sprintf("re-index run into %s failed: %v", dbName, err), nil)
+					failed = true
+				}
 				if failed {
 					break
 				}
@@ -398,7 +404,15 @@ func batch(res *evid.Result, bi int, root string) {
 				}
 				gotAny := map[string]bool{}
 				got := map[string]float64{}
+				ids := map[string]map[string]bool{} // function|signature name -> IDs alerted with confidence 1
 				for _, a := range so.Alerts {
+					if a.Confidence == 1.0 {
+						k := a.MatchedFunction + "|" + a.SignatureName
+						if ids[k] == nil {
+							ids[k] = map[string]bool{}
+						}
+						ids[k][a.SignatureID] = true
+					}
 					gotAny[a.MatchedFunction] = true
 					if a.Confidence > got[a.MatchedFunction+"|"+a.SignatureName] {
 						got[a.MatchedFunction+"|"+a.SignatureName] = a.Confidence
@@ -436,6 +450,13 @@ func batch(res *evid.Result, bi int, root string) {
 						res.Violate("cli/"+bk+"/"+mode+"/missing/"+class, fmt.Sprintf("sfw scan (%s, %s): %s (indexed as %s) raised no alert for its own signature at threshold 1.0", bk, mode, ft.short, orig), map[string]any{"args": args})
 					} else if c != 1.0 {
 						res.Violate("cli/"+bk+"/"+mode+"/confidence-not-1/"+class, fmt.Sprintf("sfw scan: %s confidence %v", ft.short, c), nil)
+					} else if strings.HasPrefix(dbName, "incr") && !exact && class == "refactored" {
+						// the function was indexed twice into this database: both signatures are
+						// "that signature" for it, and full mode reports every match
+						res.Eval(1)
+						if n := len(ids[ft.short+"|IDX_"+orig]); n < 2 {
+							res.Violate("cli/"+bk+"/full/second-signature-missing/"+class, fmt.Sprintf("sfw scan (%s, full): %s was indexed twice (two signatures named IDX_%s) but only %d of them raised an alert with confidence 1", bk, ft.short, orig, n), map[string]any{"args": args})
+						}
 					}
 				}
 			}
